@@ -159,6 +159,9 @@ EXPORT errno_t _wctomb_s_chk(int *restrict retvalp, char *restrict dest,
 #ifdef SAFECLIB_STR_NULL_SLACK
         if (dest)
             memset(&dest[len], 0, dmax - len);
+#else
+        if (dest)
+            dest[len] = '\0';
 #endif
         rc = EOK;
     } else {
